@@ -56,6 +56,12 @@ def states(tier, seed):
         if symset and be != 0.0:
             continue
         st.append(dict(part="wrap", sym=symset, n=n, comp=comp, alpha=al, beta=be, fam=fam))
+    # two structural surfaces in one aerostructural point, the second one very far away (no aerodynamic interaction): every
+    # per-surface result equals that of the surface analysed alone - catches any mix-up between the surfaces in the group wiring
+    for pair, sym in itertools.product(["tube+tube_same", "tube+wingbox", "wingbox+tube_same", "tube+tube_right"], [True, False]):
+        if pair.endswith("right") and not sym:
+            continue
+        st.append(dict(part="asdecouple", pair=pair, sym=sym, fam=fam))
     # a multi-section surface dictionary handed to AeroPoint behaves exactly like the ordinary surface with the unified mesh and
     # the same documented aerodynamic entries (ground plane, viscous / wave drag, zero-alpha coefficients, laminar fraction ...)
     for nsec, ground, visc, wave, tail in itertools.product([2, 3], [False, True], [False, True], [False, True], [False, True]):
@@ -88,6 +94,64 @@ def mac_of(p, name, sym):
     S = p["ap.%s.S_ref" % name][0]
     mac = np.sum((0.5 * (ch[1:] + ch[:-1])) ** 2 * w) / S
     return mac * (2.0 if sym else 1.0)
+
+
+def part_asdecouple(s):
+    sym, fam = s["sym"], s["fam"]
+    m1k, m2k = s["pair"].split("+")
+    same = m2k.endswith("_same")
+    right = m2k.endswith("_right")
+    m2k = m2k.split("_")[0]
+    side = "left" if sym else "full"
+    ny = 3 if sym else 5
+    mesh1 = gen.make_mesh("twdi", 2, ny, side, fam, asym=not sym, span=10.0, chord=1.6)
+    mesh2 = gen.make_mesh("swept", 2 if same else 3, ny if same else (2 if sym else 3), ("right" if right else side), fam, asym=not sym, span=6.0, chord=1.1, offset=[3.0, 0.0, 2.0e5])
+
+    def surf(name, mesh, model, k):
+        kw = dict(struct_weight_relief=True, with_viscous=True, CL0=0.03 * (k + 1), CD0=0.01 * (k + 1), twist_cp=np.array([2.0, 1.0]) * (k + 1))
+        if model == "tube":
+            kw.update(thickness_cp=np.array([0.02, 0.03]) * (1.0 - 0.4 * k), fem_origin=0.35 + 0.2 * k)
+        else:
+            kw.update(spar_thickness_cp=np.array([0.005, 0.007]), skin_thickness_cp=np.array([0.01, 0.014]))
+        sf = builders.struct_surface(name, mesh, sym, model, **kw)
+        sf["E"] = sf["E"] * (1.0 + 0.5 * k)
+        sf["yield"] = sf["yield"] * (1.0 - 0.3 * k)
+        sf["mrho"] = sf["mrho"] * (1.0 + 0.2 * k)
+        return sf
+
+    fl = dict(Mach_number=0.5, W0=2.0e3, v=100.0, rho=0.9, alpha=4.0, beta=0.0 if sym else 3.0, speed_of_sound=200.0, R=2.0e6, load_factor=1.3)
+    obs = ["coupled.aero_states.%s_sec_forces", "coupled.%s.disp", "coupled.%s_loads.loads", "coupled.%s.def_mesh", "%s_perf.vonmises", "%s_perf.failure", "%s_perf.CL", "%s_perf.CD", "%s_perf.CDv"]
+
+    def run(surfs):
+        p = builders.build_aerostruct(surfs, fl)
+        builders.tighten(p, nl="default", lin="default")
+        p.run_model()
+        out = {}
+        for sf in surfs:
+            n = sf["name"]
+            out[n] = {o: np.array(p["AS_point_0." + o % n], dtype=float).copy() for o in obs}
+            out[n]["structural_mass"] = np.array(p[n + ".structural_mass"]).copy()
+            out[n]["cg_location"] = np.array(p[n + ".cg_location"]).copy()
+        return out
+
+    alone = {"wing": run([surf("wing", mesh1, m1k, 0)])["wing"], "tail": run([surf("tail", mesh2, m2k, 1)])["tail"]}
+    try:
+        both = run([surf("wing", mesh1, m1k, 0), surf("tail", mesh2, m2k, 1)])
+    except Exception as exc:  # noqa: BLE001
+        if isinstance(exc, om.AnalysisError):
+            raise
+        # each surface was analysed alone a moment ago: the two together must at least set up
+        return dict(viol=[dict(sig=dict(oracle="two_surface_aerostructural_sets_up"), msg="two surfaces that work alone fail together (%s): %s: %s" % (s["pair"], type(exc).__name__, str(exc)[:200]), measure=1.0)], nontrivial=True, digest="asdecouple-fail", transitions=3, validated=1)
+    viol, val = [], 0
+    for n in ("wing", "tail"):
+        for o, a in alone[n].items():
+            val += 1
+            b = both[n][o]
+            sc = max(np.abs(a).max(), 1e-12)
+            e = np.abs(a - b).max() / sc
+            if not e <= 1e-6:
+                viol.append(dict(sig=dict(oracle="far_surfaces_decouple_aerostructural", observable=o.replace("%s", "").strip("._"), surf=n), msg="%s of surface %s in the two-surface aerostructural point (%s, other surface 2e5 m away) differs from the surface analysed alone by %.2e" % (o % n, n, s["pair"], e), measure=float(e)))
+    return dict(viol=viol, nontrivial=True, digest=digest_arrays(both["wing"][obs[1]], both["tail"][obs[1]]), transitions=3, validated=val)
 
 
 def part_msec(s):
